@@ -799,7 +799,12 @@ class Project(MessageHandler):
         total_days_needed: int = int((work_days_needed + gap_days) * 1.5) + 7
 
         # Calculate minimum required end date
-        min_end_date = self.attributes["start"] + timedelta(days=total_days_needed)
+        try:
+            min_end_date = self.attributes["start"] + timedelta(days=total_days_needed)
+        except OverflowError:
+            # Work that cannot end before the year 9999 cannot be scheduled at all: keep the
+            # declared window, the task is then reported as not fitting
+            return
 
         # Extend project end if needed
         if min_end_date > self.attributes["end"]:
